@@ -424,6 +424,15 @@ static void h_op(void)
     if (dup) { h_out("%s dup=%s", h_status(st), h_hex(dup, DL + 2)); free(dup); }
     else h_out("%s dup=null", h_status(st));
   }
+  else if (!strcmp(op, "dsqcpy")) {
+    /* esl_abc_dsqcpy into an exact-size destination (L+2 codes) pre-filled with 0xEE */
+    ESL_DSQ *cp; int st;
+    if (!D) { h_out("bad-op"); return; }
+    cp = malloc((size_t) DL + 2); memset(cp, 0xEE, (size_t) DL + 2);
+    st = esl_abc_dsqcpy(D, DL, cp);
+    h_out("%s dup=%s", h_status(st), h_hex(cp, DL + 2));
+    free(cp);
+  }
   else h_out("bad-op");
 }
 int main(void) { return h_main(); }
